@@ -1,1 +1,4 @@
-import MindsVerif.Model.LR
+import MindsVerif.Props.C02
+import MindsVerif.Props.C03
+import MindsVerif.Props.C05
+import MindsVerif.Props.C20
